@@ -87,6 +87,9 @@ class PyTerm:
     def term(self, v):
         if v in self.env:
             return self.env[v]
+        if v[0] == 'component':
+            rust_names = {'left': 'left', 'right': 'right', 'subpattern': 'subpattern', 'pattern': 'pattern', 'plug': 'plug', 'var': 'var'}
+            return ('fld', self.term(v[1]), v[2], rust_names.get(v[3], v[3]))
         if v[0] == 'call' and v[1] == ('name', 'Proved') and len(v[2]) == 1:
             return self.term(v[2][0])
         if v[0] == 'item' and v[1][0] == 'call' and v[1][1][0] == 'attr' and v[1][1][2] in ('extract', 'unwrap') \
@@ -107,7 +110,7 @@ class PyTerm:
         """make the special forms below the top level known to the plain term reader"""
         if not isinstance(v, tuple) or not v or v in self.env:
             return
-        special = (v[0] == 'item' and v[1][0] == 'call' and v[1][1][0] == 'attr' and v[1][1][2] in ('extract', 'unwrap')) \
+        special = v[0] == 'component' or (v[0] == 'item' and v[1][0] == 'call' and v[1][1][0] == 'attr' and v[1][1][2] in ('extract', 'unwrap')) \
             or (v[0] == 'call' and v[1][0] == 'attr' and v[1][2] == 'instantiate') \
             or (v[0] == 'call' and v[1] == ('name', 'Instantiate'))
         if special:
@@ -225,9 +228,18 @@ def wiring(ctx, w: Wiring, meth, op, case, st_mf, ba_mf, racc, where):
                 if len(comp[3]) == 1 and comp[3][0][1][0] == 'list' and comp[2] == ('call', ('name', 'len'), (('bound', comp[3][0][0]),), ()):
                     for el in comp[3][0][1][1]:
                         env[el] = EMPTY
+    # `if not (a or b ...)` / `if not a` on a tuple-typed operand selects the case in which that operand is empty
+    for c, b in case['rec']['conds']:
+        if c[0] == 'param' and b is False and c not in env:
+            env[c] = EMPTY
     kind = _ret_kind(fn)
     pt = PyTerm(w, env)
     py_terms = []
+    from ..core.wiring import canon_components
+    for rec in ba_mf.paths:
+        rec['conds'] = [(canon_components(c, rec['conds'], py), b) for c, b in rec['conds']]
+        if rec['ret'] is not None:
+            rec['ret'] = canon_components(rec['ret'], rec['conds'], py)
     for rec in ba_mf.paths:
         if rec['ret'] is None:
             continue
@@ -298,6 +310,8 @@ def _py_guard(pt: PyTerm, c, b):
         return ('call', 'Pattern::e_fresh', (pt.term(c[1][1]), pt.env.get(c[2][0], c[2][0])))
     if c[0] == 'param':
         return None          # `if not delta` style shortcuts
+    if c[0] == 'isinstance' or (c[0] == 'call' and c[1] == ('name', 'isinstance')):
+        return None          # constructor test of a destructuring (the checker's `variant` decision, compared through the term)
     return ('py', show(c))
 
 
